@@ -242,6 +242,16 @@ func VerifC08ConsumerReports() {
 		vh.Assert(sp.ValsetUpdateId == mapped, "C12.consumer.slash-packet-carries-id-of-infraction-height")
 	}
 	vh.Assert(e.k.OutstandingDowntime(e.ctx, a0) == vh.Or(out0, downtime), "C08.consumer.downtime-report-marks-validator-outstanding")
+	// a validator-set change for the (existing) validator is not an acknowledgement
+	v0, verr := types.NewCCValidator(vcAddr(0), 5, vcSdkPubKey(0))
+	vh.Assert(verr == nil, "C08.consumer.setup")
+	e.k.SetCCValidator(e.ctx, v0)
+	newPower := vh.Int64("new_power")
+	vh.Assume(newPower >= 1)
+	vh.Assume(newPower <= 1<<40)
+	flagBeforeUpdate := e.k.OutstandingDowntime(e.ctx, a0)
+	e.k.ApplyCCValidatorChanges(e.ctx, []abci.ValidatorUpdate{{PubKey: vcPubKey(0), Power: newPower}})
+	vh.Assert(e.k.OutstandingDowntime(e.ctx, a0) == flagBeforeUpdate, "C08.consumer.power-update-is-not-an-acknowledgement")
 	// acknowledgement for another address does not clear it; the right one does
 	packet := channeltypes.Packet{DestinationChannel: "channel-0", DestinationPort: ccv.ConsumerPortID}
 	flagBefore := e.k.OutstandingDowntime(e.ctx, a0)
